@@ -43,7 +43,7 @@ def key_of(e, want):
     cs, g, ps = e.get("case", {}), e["go"], e.get("ps", {"ok": False, "key": "", "panic": ""})
     src = "get_method" if cs.get("src") == "chain" else "state_init"
     t = cs.get("tamper", "?")
-    cls = TCLASS.get(t, t).replace(":", "_")
+    cls = "malformed_bag" if t.startswith("malformed_bag") else TCLASS.get(t, t).replace(":", "_")
     if t == "none" and cs.get("time", "fresh") != "fresh":
         cls = cs["time"]
     ver = cs.get("ver", "?")
